@@ -46,7 +46,10 @@ type MemberPlan struct {
 	AfterBoot   int      `json:"afterBoot"`   // > 0: launched that many blocks after the leader's shared data record appeared
 	Pauses      [][2]int `json:"pauses"`      // [from, k]: new-block notifications withheld while from <= height < from+k
 	Cancels     [][2]int `json:"cancels"`     // [b, b2]: context cancelled at height b, fresh run started at height b2
-	Losses      []Loss   `json:"losses"`      // lossy delivery: the k-th submission of a class is acknowledged but never reaches the node
+	// relative to the block in which the leader's shared transaction data record first appeared (bootAt):
+	CancelAfterBoot []int  `json:"cancelAfterBoot"` // [d1, d2]: context cancelled at bootAt+d1, fresh run started at bootAt+d2
+	PauseAfterBoot  []int  `json:"pauseAfterBoot"`  // [d1, k]: new-block notifications withheld while bootAt+d1 <= height < bootAt+d1+k
+	Losses          []Loss `json:"losses"`          // lossy delivery: the k-th submission of a class is acknowledged but never reaches the node
 }
 
 // Loss drops the K-th (1-based) submission of class Cls ("tx:deploy", "tx:register", "tx:designate", "tx:transfer" = notary
@@ -87,21 +90,22 @@ func (glag) Size() int                  { return 41 }
 func (glag) LetterByIndex(i int) string { return fmt.Sprintf("letter%d", i) }
 
 type member struct {
-	idx     int
-	plan    MemberPlan
-	bc      *MemberBC
-	cancel  context.CancelFunc
-	ret     chan error
-	state   string // off | run | paused | down | done | err
-	errText string
-	runs    int
-	sent    map[string]int // accumulated over finished runs of the phase
-	rej     map[string]int
-	cancels int // how many entries of plan.Cancels were applied
-	paused  bool
-	subm    map[string]int // submissions per class over all runs of the main phase (lossy delivery)
-	lost    int
-	lossy   bool
+	idx         int
+	plan        MemberPlan
+	bc          *MemberBC
+	cancel      context.CancelFunc
+	ret         chan error
+	state       string // off | run | paused | down | done | err
+	errText     string
+	runs        int
+	sent        map[string]int // accumulated over finished runs of the phase
+	rej         map[string]int
+	cancels     int // how many entries of plan.Cancels were applied
+	paused      bool
+	subm        map[string]int // submissions per class over all runs of the main phase (lossy delivery)
+	lost        int
+	lossy       bool
+	bootApplied bool
 }
 
 type world struct {
@@ -443,7 +447,13 @@ func (w *world) observe() (chain.Rec, string) {
 		}
 	}
 	obs["cand"] = cand
-	key, _ := json.Marshal([]any{ntr, ntrX, alp, alpX, cs, neofs, boot, nnsNames, cand, gp > 0, neoOf(w, w.cmtAcc) > 0})
+	// the number of records of a bootstrap domain is not part of the key: a signer that appends instead of replacing
+	// makes it grow without getting anywhere
+	bootKey := []string{}
+	for _, b := range boot {
+		bootKey = append(bootKey, fmt.Sprint(b["dom"], b["st"]))
+	}
+	key, _ := json.Marshal([]any{ntr, ntrX, alp, alpX, cs, neofs, bootKey, nnsNames, cand, gp > 0, neoOf(w, w.cmtAcc) > 0})
 	return obs, string(key)
 }
 
@@ -534,6 +544,15 @@ func (w *world) phase(budget int, schedule bool) (why string, lastChange int) {
 		h := int(w.net.BC.BlockHeight())
 		// schedule
 		for _, m := range w.members {
+			if schedule && w.bootAt >= 0 && !m.bootApplied { // resolve the boot-relative entries once
+				m.bootApplied = true
+				if len(m.plan.CancelAfterBoot) == 2 {
+					m.plan.Cancels = append(m.plan.Cancels, [2]int{w.bootAt + m.plan.CancelAfterBoot[0], w.bootAt + m.plan.CancelAfterBoot[1]})
+				}
+				if len(m.plan.PauseAfterBoot) == 2 {
+					m.plan.Pauses = append(m.plan.Pauses, [2]int{w.bootAt + m.plan.PauseAfterBoot[0], m.plan.PauseAfterBoot[1]})
+				}
+			}
 			p := m.plan
 			if !schedule {
 				p = MemberPlan{}
@@ -647,6 +666,12 @@ func TestE2E(t *testing.T) {
 		}
 		if sc.Members[i].Losses == nil {
 			sc.Members[i].Losses = []Loss{}
+		}
+		if sc.Members[i].CancelAfterBoot == nil {
+			sc.Members[i].CancelAfterBoot = []int{}
+		}
+		if sc.Members[i].PauseAfterBoot == nil {
+			sc.Members[i].PauseAfterBoot = []int{}
 		}
 	}
 	t0 := time.Now()
